@@ -187,7 +187,11 @@ func (e BridgeEngine) genKind(r *Run, kind string) (Step, bool) {
 			amts = append(amts, fmt.Sprint(1+r.Rng.IntN(3000)))
 		}
 		to := w.Key("user", r.Rng.IntN(st.NUsers)).Hex()
-		return Step{Kind: "ext", A: A("chain", c.Name, "op", "bridge_call", "symbols", strings.Join(syms, ","), "amounts", strings.Join(amts, ","), "user", r.Rng.IntN(st.NUsers), "to", to.Hex(), "data", "", "memo", "")}, true
+		if r.Prop == "C03" && r.Pct(60) {
+			to = RecorderAddr(w)
+		}
+		return Step{Kind: "ext", A: A("chain", c.Name, "op", "bridge_call", "symbols", strings.Join(syms, ","), "amounts", strings.Join(amts, ","), "user", r.Rng.IntN(st.NUsers), "to", to.Hex(),
+			"data", []string{"", "", "00", "1234"}[r.Rng.IntN(4)], "memo", []string{"", "", "00", "0011"}[r.Rng.IntN(4)], "value", []int{0, 0, 100, 1000, 12}[r.Rng.IntN(5)])}, true
 	case "ext-height":
 		n := 1 + r.Rng.IntN(30)
 		if r.Cfg.FaultOn("ext-burst") && r.Pct(20) {
@@ -476,6 +480,28 @@ func (e BridgeEngine) variantFor(r *Run, c *ChainSt, ev *ExtEvent) (string, stri
 	fields := claimFields(honest)
 	if len(fields) == 0 {
 		return "", ""
+	}
+	if r.Pct(25) {
+		// re-split: move characters between two free-form fields (same concatenation, other meaning)
+		type pair struct{ a, b string }
+		var ok []string
+		for _, fa := range fields {
+			for _, fb := range fields {
+				if fa == fb {
+					continue
+				}
+				for k := 1; k <= 2; k++ {
+					spec := fmt.Sprintf("%s:%s:%d", fa, fb, k)
+					cl := c.buildClaim(w, ev, c.bridgerKey(w, 0).Bech(), "")
+					if mutateClaim(cl, "resplit", spec) == nil && safeValidate(cl) == nil {
+						ok = append(ok, spec)
+					}
+				}
+			}
+		}
+		if len(ok) > 0 {
+			return "resplit", ok[r.Rng.IntN(len(ok))]
+		}
 	}
 	otherAddr := ExtAddrStr(c.Name, w.Key("extuser", 50+r.Rng.IntN(5)).Hex())
 	cands := []string{otherAddr, w.Key("adv", 0).Bech(), "0000000000000000000000000000000000000000000000000000000000010000", "00", hex.EncodeToString([]byte("erc20")), "X", "FX"}
